@@ -145,7 +145,9 @@ func (m *Machine) Declare(name string, arity int) {
 }
 
 func (m *Machine) throwErr(f Term) *ball {
-	return &ball{m.copyTerm(mk("error", f, m.newVar()), map[*Var]Term{})}
+	ctx := m.newVar()
+	ctx.ctx = true
+	return &ball{m.copyTerm(mk("error", f, ctx), map[*Var]Term{})}
 }
 
 type run struct {
